@@ -208,37 +208,37 @@ var decoderTypes = []fixedType{
 // cfgEnv is the fixed type of the environment target: every predeclared type
 // parse.String documents, nested and embedded members and a user pointer.
 type cfgEnv struct {
-	Str     string
-	Flag    bool
-	I       int
-	I8      int8
-	I16     int16
-	I32     int32
-	I64     int64
-	U       uint
-	U8      uint8
-	U16     uint16
-	U32     uint32
-	U64     uint64
-	F32     float32
-	F64     float64
-	C64     complex64
-	C128    complex128
-	Dur     time.Duration
-	Strs    []string
-	Ints    []int
-	Floats  []float64
-	Bools   []bool
-	Durs    []time.Duration
-	Cplx    []complex128
-	SS      map[string]string
-	SI      map[string]int
-	IB      map[int]bool
-	FU      map[float64]uint8
-	Lists   map[string][]string
-	Set     map[string]struct{}
-	PtrInt  *int
-	Nested  struct {
+	Str    string
+	Flag   bool
+	I      int
+	I8     int8
+	I16    int16
+	I32    int32
+	I64    int64
+	U      uint
+	U8     uint8
+	U16    uint16
+	U32    uint32
+	U64    uint64
+	F32    float32
+	F64    float64
+	C64    complex64
+	C128   complex128
+	Dur    time.Duration
+	Strs   []string
+	Ints   []int
+	Floats []float64
+	Bools  []bool
+	Durs   []time.Duration
+	Cplx   []complex128
+	SS     map[string]string
+	SI     map[string]int
+	IB     map[int]bool
+	FU     map[float64]uint8
+	Lists  map[string][]string
+	Set    map[string]struct{}
+	PtrInt *int
+	Nested struct {
 		Inner string
 		Deep  struct {
 			N int8
